@@ -29,6 +29,7 @@ type Config struct {
 	StoreHook bool // storage calls are crash points
 	Asym      bool // one-directional partitions are in the alphabet
 	Puppets   bool // only n0 is a real node; the others are played by the harness
+	Rot       int  // timed mode: rotation of the staggered election timeouts
 	Cold      bool // spare nodes are constructed but neither bootstrapped nor started
 }
 
@@ -44,14 +45,16 @@ type Budget struct {
 	ClientTimeouts                   int
 	Cuts                             int // partition changes (isolate / mute / deafen / heal)
 	Steps                            int // total events (0 = unbounded, -1 = exhausted)
+	MsgSteps                         int // timed mode: >0 enables individual message events
+	Lags                             int // timed mode: intervals that pass with messages still in flight
 	// Deviations bounds the number of times the environment departs from the
 	// default (first enabled, simplest-first) event; <0 = unbounded.
 	Deviations int
 }
 
 func (b Budget) String() string {
-	return fmt.Sprintf("to%d el%d ti%d be%d wr%d rd%d lr%d dr%d drr%d du%d cr%d ar%d rs%d mb%d ro%d sp%d ct%d fe%d dv%d cu%d st%d",
-		b.Timeouts, b.Elapses, b.Ticks, b.Beats, b.Writes, b.Reads, b.LeaseReads, b.Drops, b.DropReplies, b.Dups, b.Crashes, b.Arms, b.Restarts, b.Members, b.Reorders, b.Splits, b.ClientTimeouts, b.FreeElapses, b.Deviations, b.Cuts, b.Steps)
+	return fmt.Sprintf("to%d el%d ti%d be%d wr%d rd%d lr%d dr%d drr%d du%d cr%d ar%d rs%d mb%d ro%d sp%d ct%d fe%d dv%d cu%d st%d lg%d ms%d",
+		b.Timeouts, b.Elapses, b.Ticks, b.Beats, b.Writes, b.Reads, b.LeaseReads, b.Drops, b.DropReplies, b.Dups, b.Crashes, b.Arms, b.Restarts, b.Members, b.Reorders, b.Splits, b.ClientTimeouts, b.FreeElapses, b.Deviations, b.Cuts, b.Steps, b.Lags, b.MsgSteps)
 }
 
 // Event is one environment step.
@@ -137,6 +140,8 @@ type Cluster struct {
 	// StorageSeen is called for every storage hook (monitors).
 	StorageSeen func(node int, op string, phase int)
 	Problems    []string // harness-level anomalies (panics in tasks ...)
+	Stagger     bool     // election timeouts are staggered per node (timed runs)
+	Rot         int
 	API         []*APIResult
 	views       []*raft.VerifView
 	nextWrite   int
@@ -167,13 +172,13 @@ func (c *Cluster) idIndex(id string) int {
 func New(cfg Config, b Budget) *Cluster {
 	vsched.Reset()
 	vtime.Reset()
-	c := &Cluster{Cfg: cfg, B: b, Armed: map[int]*ArmSpec{}}
+	c := &Cluster{Cfg: cfg, B: b, Armed: map[int]*ArmSpec{}, Stagger: cfg.Timed, Rot: cfg.Rot}
 	c.Net = &Network{C: c, seq: map[string]int{}}
 	c.Blocked = make([][]bool, cfg.Voters+cfg.Spares)
 	for i := range c.Blocked {
 		c.Blocked[i] = make([]bool, cfg.Voters+cfg.Spares)
 	}
-	vsched.RandHook = func(n int64) int64 { return 0 }
+	vsched.RandHook = func(n int64) int64 { return c.randomOffset(n) }
 	vsched.OnExit = func(node, code int) {
 		if node >= 0 && node < len(c.Nodes) {
 			c.Nodes[node].Fatal = fmt.Sprintf("os.Exit(%d)", code)
@@ -372,6 +377,23 @@ func (c *Cluster) pollFutures() {
 	}
 }
 
+// randomOffset answers the library's election-timeout draw (milliseconds above
+// the minimum, range [0, n)). Untimed exploration ignores the value (timers
+// are fired by events). Timed runs stagger the nodes: node i of k draws
+// ((i+Rot) mod k) * n/k, so timeouts are distinct per node and every rotation
+// of "who times out first" can be enumerated.
+func (c *Cluster) randomOffset(n int64) int64 {
+	if !c.Stagger {
+		return 0
+	}
+	k := int64(len(c.Nodes))
+	i := int64(vsched.CurNode())
+	if i < 0 {
+		i = 0
+	}
+	return ((i + int64(c.Rot)) % k) * (n / k)
+}
+
 // View returns the lock-free view of a live node (cached per quiescent point).
 func (c *Cluster) View(i int) (raft.VerifView, bool) {
 	n := c.Nodes[i]
@@ -440,6 +462,9 @@ func (c *Cluster) Inject1(e Event) error {
 	}
 	switch e.K {
 	case "deliver":
+		if c.Cfg.Timed && c.B.MsgSteps > 0 {
+			c.B.MsgSteps--
+		}
 		m := c.Net.find(e.M)
 		if m == nil || m.State != MSent {
 			return fmt.Errorf("deliver: no such message %s", e.M)
@@ -467,6 +492,9 @@ func (c *Cluster) Inject1(e Event) error {
 			c.Net.OnReply(m)
 		}
 	case "rt": // deliver and reply in one step
+		if c.Cfg.Timed && c.B.MsgSteps > 0 {
+			c.B.MsgSteps--
+		}
 		m := c.Net.find(e.M)
 		if m == nil || m.State != MSent {
 			return fmt.Errorf("rt: no such message %s", e.M)
@@ -637,6 +665,26 @@ func (c *Cluster) Inject1(e Event) error {
 		if err := c.applyPuppet(e); err != nil {
 			return err
 		}
+	case "adv", "lag":
+		if e.K == "lag" {
+			c.B.Lags--
+		}
+		// timed mode: one heartbeat interval of global time. "tick" first
+		// delivers every deliverable message (oldest first, request and reply),
+		// "lag" lets the interval pass with the messages still in flight (they
+		// are then one tick old and must be delivered before the next advance).
+		if e.K == "adv" {
+			c.deliverAll()
+		}
+		c.Tick++
+		for i := range c.Nodes {
+			vtime.Advance(i, HB)
+		}
+		for _, sl := range vtime.LiveSleepers() {
+			if !sl.Fired && sl.Deadline <= vtime.ClockOf(sl.Node).Ns {
+				sl.Fired = true
+			}
+		}
 	case "api":
 		if err := c.applyAPI(e); err != nil {
 			return err
@@ -683,10 +731,75 @@ func (c *Cluster) Enabled() []Event {
 	return ev
 }
 
+// deliverAll hands every deliverable message to its target and every
+// available reply to its sender, oldest first, until nothing is deliverable.
+func (c *Cluster) deliverAll() {
+	for round := 0; round < 10000; round++ {
+		var pick *Msg
+		for _, m := range c.Net.Msgs {
+			ok := false
+			switch m.State {
+			case MSent:
+				ok = !c.Blocked[m.From][m.To]
+			case MHandled:
+				ok = !c.Blocked[m.To][m.From]
+			}
+			if ok && (pick == nil || m.Order < pick.Order) {
+				pick = m
+			}
+		}
+		if pick == nil {
+			return
+		}
+		if pick.State == MSent {
+			c.Net.runHandler(pick, false)
+			c.settle()
+		}
+		if pick.State == MHandled && !c.Blocked[pick.To][pick.From] {
+			pick.State = MDone
+			pick.Replied = true
+			c.Net.remove(pick)
+			if c.Net.OnReply != nil {
+				c.Net.OnReply(pick)
+			}
+			c.settle()
+		}
+		if pick.State == MSent {
+			// target down or handler unavailable: runHandler failed it
+			continue
+		}
+	}
+	c.Problems = append(c.Problems, "livelock: message delivery does not terminate")
+}
+
+// timedEnabled is the alphabet of timed suites (C15-C17): time advances in
+// heartbeat intervals; messages are prompt unless a link is cut.
+func (c *Cluster) timedEnabled() []Event {
+	ev := []Event{{K: "adv"}}
+	overdue := false
+	pending := false
+	for _, m := range c.Net.Msgs {
+		deliverable := (m.State == MSent && !c.Blocked[m.From][m.To]) || (m.State == MHandled && !c.Blocked[m.To][m.From] && c.Net.senderAlive(m))
+		if deliverable {
+			pending = true
+			if c.Tick-m.SentAt >= 1 {
+				overdue = true
+			}
+		}
+	}
+	if pending && !overdue && c.B.Lags > 0 {
+		ev = append(ev, Event{K: "lag"})
+	}
+	return ev
+}
+
 func (c *Cluster) enabledAll() []Event {
 	var ev []Event
 	if c.Cfg.Puppets {
 		ev = c.puppetEnabled()
+	}
+	if c.Cfg.Timed {
+		ev = c.timedEnabled()
 	}
 	msgs := append([]*Msg(nil), c.Net.Msgs...)
 	sort.Slice(msgs, func(i, j int) bool { return msgs[i].Order < msgs[j].Order })
@@ -710,7 +823,7 @@ func (c *Cluster) enabledAll() []Event {
 		}
 	}
 	for _, m := range uniq {
-		if c.Cfg.Puppets {
+		if c.Cfg.Puppets || (c.Cfg.Timed && c.B.MsgSteps <= 0) {
 			break
 		}
 		if m.State == MSent && !c.Blocked[m.From][m.To] {
@@ -740,6 +853,9 @@ func (c *Cluster) enabledAll() []Event {
 		}
 	}
 	for _, m := range uniq {
+		if c.Cfg.Timed && c.B.MsgSteps <= 0 {
+			break
+		}
 		if m.State == MHandled && c.Net.senderAlive(m) && !c.Blocked[m.To][m.From] {
 			ev = append(ev, Event{K: "reply", M: m.ID})
 		}
@@ -957,6 +1073,20 @@ func (c *Cluster) Tags() []string {
 		if op.Resolved && op.Err == nil {
 			t = append(t, "op_acked")
 			break
+		}
+	}
+	for i := range c.Nodes {
+		if v, ok := c.View(i); ok && (v.State == raft.PreCandidate || v.State == raft.Candidate) {
+			leaderElsewhere := false
+			for j := range c.Nodes {
+				if w, ok := c.View(j); ok && j != i && w.State == raft.Leader {
+					leaderElsewhere = true
+				}
+			}
+			if leaderElsewhere {
+				t = append(t, "minority_campaigned")
+				break
+			}
 		}
 	}
 	for i := range c.Nodes {
